@@ -4,10 +4,10 @@ package gvc
 // counted in Exec.Trusted and reported in the evidence.
 
 import (
-	"strconv"
 	"fmt"
 	"go/types"
 	"math/big"
+	"strconv"
 	"strings"
 
 	"golang.org/x/tools/go/ssa"
